@@ -92,10 +92,22 @@ impl Case {
     pub fn from_json(v: &Value) -> Option<Case> {
         Some(Case {
             project: Project::from_json(v.get("project")?)?,
-            faults: v.get("faults")?.as_array()?.iter().map(fault_from_json).collect::<Option<Vec<_>>>()?,
+            faults: v
+                .get("faults")?
+                .as_array()?
+                .iter()
+                .map(fault_from_json)
+                .collect::<Option<Vec<_>>>()?,
             pipeline: v.get("pipeline")?.as_str()?.to_string(),
-            entropy_seed: v.get("entropy_seed").and_then(|s| s.as_str()).and_then(parse_u64)?,
-            shape: v.get("shape").and_then(|s| s.as_str()).unwrap_or("").to_string(),
+            entropy_seed: v
+                .get("entropy_seed")
+                .and_then(|s| s.as_str())
+                .and_then(parse_u64)?,
+            shape: v
+                .get("shape")
+                .and_then(|s| s.as_str())
+                .unwrap_or("")
+                .to_string(),
         })
     }
 }
@@ -128,7 +140,10 @@ fn import_line(rng: &mut Rng, target: &str, idx: usize) -> String {
         0 => format!(".import * as ns{} from \"{}\"\n", idx, target),
         1 => format!(".import foo from \"{}\"\n", target),
         2 => format!(".import foo as bar{} from \"{}\"\n", idx, target),
-        3 => format!(".import * from \"{}\" {{\n    .const PARAM = {}\n}}\n", target, idx),
+        3 => format!(
+            ".import * from \"{}\" {{\n    .const PARAM = {}\n}}\n",
+            target, idx
+        ),
         _ => format!(".import * from \"{}\"\n", target),
     }
 }
@@ -142,7 +157,13 @@ pub fn gen_case(seed: u64, k: u64) -> Case {
     let mut edges: Vec<(usize, String, bool)> = vec![]; // (from, target name, exists)
     for i in 0..n_files {
         for j in 0..n_files {
-            let p = if i == j { 1 } else if j > i { density + 1 } else { density };
+            let p = if i == j {
+                1
+            } else if j > i {
+                density + 1
+            } else {
+                density
+            };
             if rng.chance(p as u32, 8) {
                 edges.push((i, names[j].to_string(), true));
             }
@@ -168,7 +189,11 @@ pub fn gen_case(seed: u64, k: u64) -> Case {
         let mut body = String::new();
         let n_frag = rng.range(1, 2);
         for _ in 0..n_frag {
-            let f = if rng.chance(1, 3) { rng.pick(boundary()).clone() } else { rng.pick(fragments()).clone() };
+            let f = if rng.chance(1, 3) {
+                rng.pick(boundary()).clone()
+            } else {
+                rng.pick(fragments()).clone()
+            };
             if f.contains(".file") {
                 uses_file = true;
             }
@@ -190,7 +215,12 @@ pub fn gen_case(seed: u64, k: u64) -> Case {
             1 => format!("{}{}", body, imports),
             _ => {
                 // imports in the middle
-                let cut = body.char_indices().filter(|(_, c)| *c == '\n').map(|(i, _)| i + 1).next().unwrap_or(0);
+                let cut = body
+                    .char_indices()
+                    .filter(|(_, c)| *c == '\n')
+                    .map(|(i, _)| i + 1)
+                    .next()
+                    .unwrap_or(0);
                 format!("{}{}{}", &body[..cut], imports, &body[cut..])
             }
         };
@@ -200,18 +230,29 @@ pub fn gen_case(seed: u64, k: u64) -> Case {
     if rng.chance(1, 100) {
         let n = *rng.pick(&[60usize, 100, 800]);
         for i in 1..=n {
-            let text = if i < n { format!("dl{}: nop\n.import * from \"c{}.asm\"\n", i, i + 1) } else { "dl_last: nop\n".to_string() };
-            project.files.insert(format!("deep/c{}.asm", i), text.into_bytes());
+            let text = if i < n {
+                format!("dl{}: nop\n.import * from \"c{}.asm\"\n", i, i + 1)
+            } else {
+                "dl_last: nop\n".to_string()
+            };
+            project
+                .files
+                .insert(format!("deep/c{}.asm", i), text.into_bytes());
         }
         // nothing else in such a project: every pass over a long chain is slow, a fragment that needs hundreds
         // of passes would make the case take minutes
         project.files.retain(|k, _| k.starts_with("deep/"));
-        project.files.insert("main.asm".into(), b"start: nop\n.import * from \"deep/c1.asm\"\n".to_vec());
+        project.files.insert(
+            "main.asm".into(),
+            b"start: nop\n.import * from \"deep/c1.asm\"\n".to_vec(),
+        );
         shape = format!("chain{};", n);
     }
     if uses_file || rng.chance(1, 10) {
         if rng.chance(3, 4) {
-            project.files.insert("data.bin".into(), vec![1, 2, 3, 0xff, 0xfe]);
+            project
+                .files
+                .insert("data.bin".into(), vec![1, 2, 3, 0xff, 0xfe]);
         }
     }
     project.toml = match rng.below(6) {
@@ -255,7 +296,11 @@ pub fn gen_case(seed: u64, k: u64) -> Case {
             2 => FaultKind::IsADirectory,
             3 => FaultKind::IoError,
             4 => FaultKind::Interrupted,
-            5 | 6 => FaultKind::Truncate(if content.is_empty() { 0 } else { rng.below(content.len()) }),
+            5 | 6 => FaultKind::Truncate(if content.is_empty() {
+                0
+            } else {
+                rng.below(content.len())
+            }),
             7 => FaultKind::Replace(vec![]),
             8 => FaultKind::Replace(vec![b'l', b'd', b'a', b' ', 0xff, 0xfe, 0xc3]),
             9 => {
@@ -269,30 +314,87 @@ pub fn gen_case(seed: u64, k: u64) -> Case {
                 FaultKind::Replace(b)
             }
         };
-        faults.push(Fault { path, nth, op: Op::Read, kind });
+        faults.push(Fault {
+            path,
+            nth,
+            op: Op::Read,
+            kind,
+        });
     }
     if rng.chance(1, 12) {
         // output side: the target directory / output files cannot be written
-        let path = disk::normalize(&Path::new(WS).join(rng.pick_str(&["target/main.prg", "target/main.bin", "target/main.lst", "target/main.vs", "target/a.bin", "target/b.bin", "target/foo.bin"])));
-        faults.push(Fault { path, nth: 0, op: Op::Write, kind: if rng.chance(1, 2) { FaultKind::NoSpace } else { FaultKind::PermissionDenied } });
+        let path = disk::normalize(&Path::new(WS).join(rng.pick_str(&[
+            "target/main.prg",
+            "target/main.bin",
+            "target/main.lst",
+            "target/main.vs",
+            "target/a.bin",
+            "target/b.bin",
+            "target/foo.bin",
+        ])));
+        faults.push(Fault {
+            path,
+            nth: 0,
+            op: Op::Write,
+            kind: if rng.chance(1, 2) {
+                FaultKind::NoSpace
+            } else {
+                FaultKind::PermissionDenied
+            },
+        });
     }
     if rng.chance(1, 12) {
         // the output file can be created, but a write to it fails (disk full, I/O error)
-        let path = disk::normalize(&Path::new(WS).join(rng.pick_str(&["target/main.prg", "target/main.bin", "target/main.lst", "target/main.vs", "target/a.bin", "target/b.bin", "target/foo.bin"])));
-        faults.push(Fault { path, nth: *rng.pick(&[0u32, 1, 2]), op: Op::WriteData, kind: if rng.chance(1, 2) { FaultKind::NoSpace } else { FaultKind::IoError } });
+        let path = disk::normalize(&Path::new(WS).join(rng.pick_str(&[
+            "target/main.prg",
+            "target/main.bin",
+            "target/main.lst",
+            "target/main.vs",
+            "target/a.bin",
+            "target/b.bin",
+            "target/foo.bin",
+        ])));
+        faults.push(Fault {
+            path,
+            nth: *rng.pick(&[0u32, 1, 2]),
+            op: Op::WriteData,
+            kind: if rng.chance(1, 2) {
+                FaultKind::NoSpace
+            } else {
+                FaultKind::IoError
+            },
+        });
     }
     let pipeline = rng.pick_str(PIPELINES).to_string();
     if pipeline == "format" && rng.chance(1, 6) {
         // `mos format` rewrites the source files in place: they may not be writable
         let t = rng.pick(&targets).clone();
         let path = disk::normalize(&Path::new(WS).join(&t));
-        faults.push(Fault { path, nth: *rng.pick(&[0u32, 1]), op: Op::Write, kind: if rng.chance(1, 2) { FaultKind::PermissionDenied } else { FaultKind::NoSpace } });
+        faults.push(Fault {
+            path,
+            nth: *rng.pick(&[0u32, 1]),
+            op: Op::Write,
+            kind: if rng.chance(1, 2) {
+                FaultKind::PermissionDenied
+            } else {
+                FaultKind::NoSpace
+            },
+        });
     }
     if pipeline == "format" && rng.chance(1, 6) {
         // ... or they can be opened, but the disk fills up while the new contents are written
         let t = rng.pick(&targets).clone();
         let path = disk::normalize(&Path::new(WS).join(&t));
-        faults.push(Fault { path, nth: *rng.pick(&[0u32, 1]), op: Op::WriteData, kind: if rng.chance(1, 2) { FaultKind::NoSpace } else { FaultKind::IoError } });
+        faults.push(Fault {
+            path,
+            nth: *rng.pick(&[0u32, 1]),
+            op: Op::WriteData,
+            kind: if rng.chance(1, 2) {
+                FaultKind::NoSpace
+            } else {
+                FaultKind::IoError
+            },
+        });
     }
     Case {
         project,
@@ -340,7 +442,11 @@ fn short_loc(loc: &str) -> String {
 
 /// Check every label of every diagnostic: it must map, without panicking, into a
 /// file of the code map whose name is a path of the project.
-fn check_locations(d: &Diagnostics, project_paths: &BTreeSet<PathBuf>, stats: &mut RunStats) -> Option<Found> {
+fn check_locations(
+    d: &Diagnostics,
+    project_paths: &BTreeSet<PathBuf>,
+    stats: &mut RunStats,
+) -> Option<Found> {
     for diag in d.iter() {
         for label in &diag.labels {
             stats.labels_checked += 1;
@@ -350,13 +456,21 @@ fn check_locations(d: &Diagnostics, project_paths: &BTreeSet<PathBuf>, stats: &m
                     return Some(Found {
                         class: "location_without_code_map".into(),
                         sig: "location:no_code_map".into(),
-                        message: format!("diagnostic '{}' carries a label but no code map to resolve it", diag.message),
+                        message: format!(
+                            "diagnostic '{}' carries a label but no code map to resolve it",
+                            diag.message
+                        ),
                     })
                 }
             };
             let r = std::panic::catch_unwind(std::panic::AssertUnwindSafe(|| {
                 let sl = cm.look_up_span(label.file_id);
-                (sl.file.name().to_string(), sl.begin.line, sl.end.line, sl.file.num_lines())
+                (
+                    sl.file.name().to_string(),
+                    sl.begin.line,
+                    sl.end.line,
+                    sl.file.num_lines(),
+                )
             }));
             match r {
                 Err(_) => {
@@ -381,7 +495,10 @@ fn check_locations(d: &Diagnostics, project_paths: &BTreeSet<PathBuf>, stats: &m
                         return Some(Found {
                             class: "location_outside_file".into(),
                             sig: "location:line_out_of_file".into(),
-                            message: format!("diagnostic '{}' at lines {}..{} of '{}' which has {} lines", diag.message, bl, el, name, nl),
+                            message: format!(
+                                "diagnostic '{}' at lines {}..{} of '{}' which has {} lines",
+                                diag.message, bl, el, name, nl
+                            ),
                         });
                     }
                 }
@@ -393,7 +510,10 @@ fn check_locations(d: &Diagnostics, project_paths: &BTreeSet<PathBuf>, stats: &m
 
 fn panic_found(pipeline: &str, stage: &str) -> Found {
     let p = panics::peek();
-    if let Some(b) = p.iter().find(|p| p.message.contains(mos_simrt::disk::READ_BUDGET_MARKER)) {
+    if let Some(b) = p
+        .iter()
+        .find(|p| p.message.contains(mos_simrt::disk::READ_BUDGET_MARKER))
+    {
         return Found {
             class: "nonterminating_file_loop".into(),
             sig: "nonterminating:file_reads".into(),
@@ -403,7 +523,10 @@ fn panic_found(pipeline: &str, stage: &str) -> Found {
             ),
         };
     }
-    if let Some(b) = p.iter().find(|p| p.message.contains(passwatch::WORK_BUDGET_MARKER)) {
+    if let Some(b) = p
+        .iter()
+        .find(|p| p.message.contains(passwatch::WORK_BUDGET_MARKER))
+    {
         return Found {
             class: "nonterminating_expansion".into(),
             sig: "nonterminating:expansion".into(),
@@ -411,7 +534,9 @@ fn panic_found(pipeline: &str, stage: &str) -> Found {
         };
     }
     let last = p.last();
-    let loc = last.map(|p| short_loc(&p.location)).unwrap_or_else(|| "<unknown>".into());
+    let loc = last
+        .map(|p| short_loc(&p.location))
+        .unwrap_or_else(|| "<unknown>".into());
     Found {
         class: "panic".into(),
         sig: format!("panic:{}@{}", stage, loc),
@@ -425,7 +550,12 @@ fn panic_found(pipeline: &str, stage: &str) -> Found {
     }
 }
 
-fn check_error(e: &anyhow::Error, paths: &BTreeSet<PathBuf>, stats: &mut RunStats, pipeline: &str) -> Option<Found> {
+fn check_error(
+    e: &anyhow::Error,
+    paths: &BTreeSet<PathBuf>,
+    stats: &mut RunStats,
+    pipeline: &str,
+) -> Option<Found> {
     if let Some(d) = e.downcast_ref::<Diagnostics>() {
         stats.diagnostics += d.len() as u64;
         if d.is_empty() {
@@ -461,7 +591,10 @@ fn check_error(e: &anyhow::Error, paths: &BTreeSet<PathBuf>, stats: &mut RunStat
             return Some(Found {
                 class: "error_without_diagnostic".into(),
                 sig: format!("empty_rendering:{}", pipeline),
-                message: format!("pipeline {} failed and the rendered diagnostics are empty", pipeline),
+                message: format!(
+                    "pipeline {} failed and the rendered diagnostics are empty",
+                    pipeline
+                ),
             })
         }
         Ok(_) => {}
@@ -471,13 +604,23 @@ fn check_error(e: &anyhow::Error, paths: &BTreeSet<PathBuf>, stats: &mut RunStat
     if let Some(d) = e.downcast_ref::<Diagnostics>() {
         let (good, os_error) = STDOUT_FAULT.with(|f| f.get());
         if os_error != 0 {
-            *stats.faults_fired.entry(if os_error == 32 { "stdout_epipe".to_string() } else { "stdout_enospc".to_string() }).or_insert(0) += 1;
+            *stats
+                .faults_fired
+                .entry(if os_error == 32 {
+                    "stdout_epipe".to_string()
+                } else {
+                    "stdout_enospc".to_string()
+                })
+                .or_insert(0) += 1;
             let r = std::panic::catch_unwind(std::panic::AssertUnwindSafe(|| {
                 let mut em = DiagnosticEmitter::failing_after(DisplayStyle::Rich, good, os_error);
                 em.emit_diagnostics(d);
             }));
             if r.is_err() {
-                return Some(panic_found(pipeline, "diagnostic_emitter(failing output stream)"));
+                return Some(panic_found(
+                    pipeline,
+                    "diagnostic_emitter(failing output stream)",
+                ));
             }
         }
     }
@@ -514,7 +657,16 @@ pub fn execute(c: &Case, stats: &mut RunStats) -> Option<Found> {
     passwatch::install();
     // one run in four also renders its diagnostics to a stream that fails after 0..400 bytes
     let sf = rng::derive(c.entropy_seed, "envsim.stdout_fault", 0);
-    STDOUT_FAULT.with(|f| f.set(if sf % 4 == 0 { (((sf >> 8) % 400) as usize, if (sf >> 4) % 2 == 0 { 32 } else { 28 }) } else { (0, 0) }));
+    STDOUT_FAULT.with(|f| {
+        f.set(if sf % 4 == 0 {
+            (
+                ((sf >> 8) % 400) as usize,
+                if (sf >> 4) % 2 == 0 { 32 } else { 28 },
+            )
+        } else {
+            (0, 0)
+        })
+    });
     let found = execute_inner(c, &root, &paths, stats);
     let ps = passwatch::uninstall();
     stats.max_passes = ps.max_passes as u64;
@@ -536,7 +688,10 @@ fn nonterm(pipeline: &str, v: &str) -> Found {
     Found {
         class: "nonterminating_pass_loop".into(),
         sig: format!("nonterminating:{}", v.split('(').next().unwrap_or(v)),
-        message: format!("pipeline {}: the pass loop does not terminate ({}, decided on the logical clock)", pipeline, v),
+        message: format!(
+            "pipeline {}: the pass loop does not terminate ({}, decided on the logical clock)",
+            pipeline, v
+        ),
     }
 }
 
@@ -549,7 +704,12 @@ fn root_of(c: &Case) -> PathBuf {
     }
 }
 
-fn execute_inner(c: &Case, root: &Path, paths: &BTreeSet<PathBuf>, stats: &mut RunStats) -> Option<Found> {
+fn execute_inner(
+    c: &Case,
+    root: &Path,
+    paths: &BTreeSet<PathBuf>,
+    stats: &mut RunStats,
+) -> Option<Found> {
     let cfg = if c.project.toml.is_empty() {
         Config::default()
     } else {
@@ -561,7 +721,9 @@ fn execute_inner(c: &Case, root: &Path, paths: &BTreeSet<PathBuf>, stats: &mut R
     };
     match c.pipeline.as_str() {
         "build" => {
-            let r = std::panic::catch_unwind(std::panic::AssertUnwindSafe(|| build_command(root, &cfg)));
+            let r = std::panic::catch_unwind(std::panic::AssertUnwindSafe(|| {
+                build_command(root, &cfg)
+            }));
             if let Some(v) = passwatch::take_verdict() {
                 return Some(nonterm("build", &v));
             }
@@ -586,12 +748,20 @@ fn execute_inner(c: &Case, root: &Path, paths: &BTreeSet<PathBuf>, stats: &mut R
                         });
                     }
                     // a binary must have been written
-                    let wrote = disk::with(|d| d.written.iter().any(|p| !p.to_string_lossy().ends_with(".lst") && !p.to_string_lossy().ends_with(".vs"))).unwrap_or(false);
+                    let wrote = disk::with(|d| {
+                        d.written.iter().any(|p| {
+                            !p.to_string_lossy().ends_with(".lst")
+                                && !p.to_string_lossy().ends_with(".vs")
+                        })
+                    })
+                    .unwrap_or(false);
                     if !wrote {
                         return Some(Found {
                             class: "neither_binary_nor_diagnostic".into(),
                             sig: "no_output:build".into(),
-                            message: "build succeeded without writing a binary and without a diagnostic".into(),
+                            message:
+                                "build succeeded without writing a binary and without a diagnostic"
+                                    .into(),
                         });
                     }
                     None
@@ -605,7 +775,8 @@ fn execute_inner(c: &Case, root: &Path, paths: &BTreeSet<PathBuf>, stats: &mut R
         "analysis" => {
             let entry = cfg.build.input_path(root);
             let r = std::panic::catch_unwind(std::panic::AssertUnwindSafe(|| {
-                let (tree, perr) = mos_core::parser::parse(&entry, FileSystemParsingSource::new().into());
+                let (tree, perr) =
+                    mos_core::parser::parse(&entry, FileSystemParsingSource::new().into());
                 let mut found = None;
                 let mut ndiag = perr.len();
                 let mut st2 = RunStats::default();
@@ -614,12 +785,22 @@ fn execute_inner(c: &Case, root: &Path, paths: &BTreeSet<PathBuf>, stats: &mut R
                 }
                 let mut result = "parse_failed";
                 if let Some(tree) = tree {
-                    let (ctx, cerr) = codegen(tree.clone(), CodegenOptions { enable_greedy_analysis: true, ..Default::default() });
+                    let (ctx, cerr) = codegen(
+                        tree.clone(),
+                        CodegenOptions {
+                            enable_greedy_analysis: true,
+                            ..Default::default()
+                        },
+                    );
                     ndiag += cerr.len();
                     if found.is_none() {
                         found = check_locations(&cerr, paths, &mut st2);
                     }
-                    result = if ctx.is_some() { "context" } else { "no_context" };
+                    result = if ctx.is_some() {
+                        "context"
+                    } else {
+                        "no_context"
+                    };
                     if ctx.is_none() && perr.is_empty() && cerr.is_empty() && found.is_none() {
                         found = Some(Found {
                             class: "neither_binary_nor_diagnostic".into(),
@@ -634,7 +815,8 @@ fn execute_inner(c: &Case, root: &Path, paths: &BTreeSet<PathBuf>, stats: &mut R
                     }
                     if perr.is_empty() {
                         for file in tree.files.keys() {
-                            let _ = mos_core::formatting::format(file, tree.clone(), cfg.formatting);
+                            let _ =
+                                mos_core::formatting::format(file, tree.clone(), cfg.formatting);
                         }
                     }
                 } else if perr.is_empty() {
@@ -665,9 +847,21 @@ fn execute_inner(c: &Case, root: &Path, paths: &BTreeSet<PathBuf>, stats: &mut R
             // Between the analysis at start-up and the one triggered by didOpen the disk changes under the
             // server (a file of the project is deleted, cut to its first line or rewritten outside the editor).
             // Only when no planned fault alters what a read returns, so that "the file as it is now" is defined.
-            let content_faults = c.faults.iter().any(|f| matches!(f.kind, FaultKind::Truncate(_) | FaultKind::Replace(_)));
+            let content_faults = c
+                .faults
+                .iter()
+                .any(|f| matches!(f.kind, FaultKind::Truncate(_) | FaultKind::Replace(_)));
             let mutation = rng::derive(c.entropy_seed, "envsim.lsp.disk_mutation", 0);
-            let victims: Vec<PathBuf> = disk::with(|d| d.files.keys().filter(|p| **p != main_path && p.extension().map(|e| e == "asm").unwrap_or(false)).cloned().collect()).unwrap_or_default();
+            let victims: Vec<PathBuf> = disk::with(|d| {
+                d.files
+                    .keys()
+                    .filter(|p| {
+                        **p != main_path && p.extension().map(|e| e == "asm").unwrap_or(false)
+                    })
+                    .cloned()
+                    .collect()
+            })
+            .unwrap_or_default();
             let r = std::panic::catch_unwind(std::panic::AssertUnwindSafe(|| {
                 let mut ctx = LspContext::new();
                 let client = ctx.listen_memory_verif();
@@ -678,16 +872,34 @@ fn execute_inner(c: &Case, root: &Path, paths: &BTreeSet<PathBuf>, stats: &mut R
                     disk::with(|d| match (mutation / 64) % 3 {
                         0 => {
                             d.files.remove(&v);
-                            d.log.push(format!("lsp pipeline: {} deleted after start-up", v.display()));
+                            d.log.push(format!(
+                                "lsp pipeline: {} deleted after start-up",
+                                v.display()
+                            ));
                         }
                         1 => {
-                            let first: Vec<u8> = d.files.get(&v).map(|b| b.split_inclusive(|c| *c == b'\n').next().unwrap_or(&[]).to_vec()).unwrap_or_default();
+                            let first: Vec<u8> = d
+                                .files
+                                .get(&v)
+                                .map(|b| {
+                                    b.split_inclusive(|c| *c == b'\n')
+                                        .next()
+                                        .unwrap_or(&[])
+                                        .to_vec()
+                                })
+                                .unwrap_or_default();
                             d.files.insert(v.clone(), first);
-                            d.log.push(format!("lsp pipeline: {} cut to its first line after start-up", v.display()));
+                            d.log.push(format!(
+                                "lsp pipeline: {} cut to its first line after start-up",
+                                v.display()
+                            ));
                         }
                         _ => {
                             d.files.insert(v.clone(), b"nop\n".to_vec());
-                            d.log.push(format!("lsp pipeline: {} rewritten after start-up", v.display()));
+                            d.log.push(format!(
+                                "lsp pipeline: {} rewritten after start-up",
+                                v.display()
+                            ));
                         }
                     });
                 }
@@ -700,10 +912,33 @@ fn execute_inner(c: &Case, root: &Path, paths: &BTreeSet<PathBuf>, stats: &mut R
                     let res = server.handle_message(msg);
                     while let Ok(m) = client.receiver.try_recv() {
                         if let lsp_server::Message::Notification(nf) = m {
-                            let uri = nf.params.get("uri").and_then(|u| u.as_str()).unwrap_or("").to_string();
-                            for dg in nf.params.get("diagnostics").and_then(|d| d.as_array()).cloned().unwrap_or_default() {
-                                let line = dg.get("range").and_then(|r| r.get("end")).and_then(|e| e.get("line")).and_then(|l| l.as_u64()).unwrap_or(0);
-                                published.push((uri.clone(), line, dg.get("message").and_then(|m| m.as_str()).unwrap_or("").to_string()));
+                            let uri = nf
+                                .params
+                                .get("uri")
+                                .and_then(|u| u.as_str())
+                                .unwrap_or("")
+                                .to_string();
+                            for dg in nf
+                                .params
+                                .get("diagnostics")
+                                .and_then(|d| d.as_array())
+                                .cloned()
+                                .unwrap_or_default()
+                            {
+                                let line = dg
+                                    .get("range")
+                                    .and_then(|r| r.get("end"))
+                                    .and_then(|e| e.get("line"))
+                                    .and_then(|l| l.as_u64())
+                                    .unwrap_or(0);
+                                published.push((
+                                    uri.clone(),
+                                    line,
+                                    dg.get("message")
+                                        .and_then(|m| m.as_str())
+                                        .unwrap_or("")
+                                        .to_string(),
+                                ));
                             }
                         }
                     }
@@ -761,9 +996,19 @@ fn execute_inner(c: &Case, root: &Path, paths: &BTreeSet<PathBuf>, stats: &mut R
             // error half-way, a panic - no source file may end up with less in it than before: formatting moves
             // white space and changes letter case, it never removes a character. (Only when no planned fault
             // alters what a read returns, so that "before" is what the formatter saw.)
-            let content_faults = c.faults.iter().any(|f| matches!(f.kind, FaultKind::Truncate(_) | FaultKind::Replace(_)));
+            let content_faults = c
+                .faults
+                .iter()
+                .any(|f| matches!(f.kind, FaultKind::Truncate(_) | FaultKind::Replace(_)));
             let ink = |b: &[u8]| b.iter().filter(|c| !c.is_ascii_whitespace()).count();
-            let before: Vec<(PathBuf, usize)> = disk::with(|d| d.files.iter().filter(|(p, _)| p.extension().map(|e| e == "asm").unwrap_or(false)).map(|(p, b)| (p.clone(), ink(b))).collect()).unwrap_or_default();
+            let before: Vec<(PathBuf, usize)> = disk::with(|d| {
+                d.files
+                    .iter()
+                    .filter(|(p, _)| p.extension().map(|e| e == "asm").unwrap_or(false))
+                    .map(|(p, b)| (p.clone(), ink(b)))
+                    .collect()
+            })
+            .unwrap_or_default();
             let r = std::panic::catch_unwind(std::panic::AssertUnwindSafe(|| format_command(&cfg)));
             let outcome = match &r {
                 Err(_) => "a panic",
@@ -809,7 +1054,11 @@ fn run_case(c: &Case) -> (Option<Found>, RunStats) {
     // 8 MiB: the main-thread stack of the real process on Linux. The long-chain shape runs with 1 MiB, the
     // main-thread stack of the Windows binaries the project ships: recursion that is proportional to the
     // length of an import chain overflows it ten times sooner, which keeps these (expensive) cases small.
-    let stack = if c.shape.contains("chain") { 1 << 20 } else { 8 << 20 };
+    let stack = if c.shape.contains("chain") {
+        1 << 20
+    } else {
+        8 << 20
+    };
     let r = fresh_thread(stack, move || {
         let mut st = RunStats::default();
         let f = execute(&c2, &mut st);
@@ -820,7 +1069,12 @@ fn run_case(c: &Case) -> (Option<Found>, RunStats) {
         Err(p) => (
             Some(Found {
                 class: "harness_panic".into(),
-                sig: format!("harness_panic@{}", p.first().map(|p| short_loc(&p.location)).unwrap_or_default()),
+                sig: format!(
+                    "harness_panic@{}",
+                    p.first()
+                        .map(|p| short_loc(&p.location))
+                        .unwrap_or_default()
+                ),
                 message: format!("panic outside the code under test: {:?}", p.first()),
             }),
             RunStats::default(),
@@ -846,7 +1100,10 @@ fn run_isolated_case(cli: &Cli, c: &Case) -> Option<Found> {
         Err(how) => Some(Found {
             class: "process_death".into(),
             sig: format!("process_death:{}", how),
-            message: format!("the process died or deadlocked ({}) in pipeline {}", how, c.pipeline),
+            message: format!(
+                "the process died or deadlocked ({}) in pipeline {}",
+                how, c.pipeline
+            ),
         }),
     }
 }
@@ -910,7 +1167,9 @@ fn minimise(cli: &Cli, c: &Case, found: &Found) -> (Case, Found) {
             same(&x)
         });
         let mut x = best.clone();
-        x.project.files.insert(n.clone(), kept.concat().into_bytes());
+        x.project
+            .files
+            .insert(n.clone(), kept.concat().into_bytes());
         if same(&x) {
             best = x;
         }
@@ -924,7 +1183,9 @@ fn minimise(cli: &Cli, c: &Case, found: &Found) -> (Case, Found) {
             break;
         }
     }
-    let f = run_isolated_case(cli, &best).filter(|f| f.sig == sig).unwrap_or_else(|| found.clone());
+    let f = run_isolated_case(cli, &best)
+        .filter(|f| f.sig == sig)
+        .unwrap_or_else(|| found.clone());
     (best, f)
 }
 
@@ -970,7 +1231,10 @@ impl Agg {
         self.reads += st.reads;
         self.max_reads = self.max_reads.max(st.reads);
         *self.pipelines.entry(c.pipeline.clone()).or_insert(0) += 1;
-        *self.results.entry(format!("{}:{}", c.pipeline, st.result)).or_insert(0) += 1;
+        *self
+            .results
+            .entry(format!("{}:{}", c.pipeline, st.result))
+            .or_insert(0) += 1;
         let b = match st.max_passes {
             0 => "0",
             1 => "1",
@@ -1017,7 +1281,13 @@ fn worker(cli: &Cli) -> i32 {
         let nontrivial = found.is_none()
             && (st.files_involved >= 2 || !st.faults_fired.is_empty())
             && (st.max_passes >= 2 || st.diagnostics >= 1);
-        worker_emit_run(&RunReport { k, digest: dg, trace: tr, nontrivial, found: found.as_ref().map(found_json) });
+        worker_emit_run(&RunReport {
+            k,
+            digest: dg,
+            trace: tr,
+            nontrivial,
+            found: found.as_ref().map(found_json),
+        });
         if agg.runs % 500 == 0 {
             worker_emit_stats(&stats_json(&agg));
             agg = Agg::default();
@@ -1039,7 +1309,13 @@ fn one(cli: &Cli) -> i32 {
     };
     let (found, st) = run_case(&c);
     let tr = trace_of(&c, &st);
-    worker_emit_run(&RunReport { k: 0, digest: tr, trace: tr, nontrivial: false, found: found.as_ref().map(found_json) });
+    worker_emit_run(&RunReport {
+        k: 0,
+        digest: tr,
+        trace: tr,
+        nontrivial: false,
+        found: found.as_ref().map(found_json),
+    });
     worker_emit_done();
     EXIT_OK
 }
@@ -1055,8 +1331,20 @@ fn replay(cli: &Cli, path: &Path) -> i32 {
     let f = run_isolated_case(cli, &c);
     let log_hash = rng::fnv64(format!("{:?}", f.as_ref().map(|f| &f.sig)).as_bytes());
     let r = match f {
-        Some(f) => ReplayResult { violated: true, sig: f.sig, class: f.class, message: f.message, log_hash },
-        None => ReplayResult { violated: false, sig: "-".into(), class: "-".into(), message: "case executed without violation".into(), log_hash },
+        Some(f) => ReplayResult {
+            violated: true,
+            sig: f.sig,
+            class: f.class,
+            message: f.message,
+            log_hash,
+        },
+        None => ReplayResult {
+            violated: false,
+            sig: "-".into(),
+            class: "-".into(),
+            message: "case executed without violation".into(),
+            log_hash,
+        },
     };
     print_replay_result(PROP, &r)
 }
@@ -1076,8 +1364,15 @@ pub fn main(cli: &Cli) -> i32 {
         Some("one") => return one(cli),
         Some("gen") => {
             // print the case with index --from (a replay file)
-            let k: u64 = cli.opts.get("from").and_then(|s| s.parse().ok()).unwrap_or(0);
-            println!("{}", serde_json::to_string_pretty(&gen_case(cli.seed, k).to_json()).unwrap());
+            let k: u64 = cli
+                .opts
+                .get("from")
+                .and_then(|s| s.parse().ok())
+                .unwrap_or(0);
+            println!(
+                "{}",
+                serde_json::to_string_pretty(&gen_case(cli.seed, k).to_json()).unwrap()
+            );
             return EXIT_OK;
         }
         _ => {}
@@ -1103,8 +1398,17 @@ pub fn main(cli: &Cli) -> i32 {
         batch = rng::fnv64_extend(batch, how.as_bytes());
     }
     if determinism {
-        println!("DETERMINISM engine=envsim runs={} deaths={} batch_hash={:016x}", sup.runs.len(), sup.deaths.len(), batch);
-        return if sup.harness_errors.is_empty() { EXIT_OK } else { EXIT_HARNESS };
+        println!(
+            "DETERMINISM engine=envsim runs={} deaths={} batch_hash={:016x}",
+            sup.runs.len(),
+            sup.deaths.len(),
+            batch
+        );
+        return if sup.harness_errors.is_empty() {
+            EXIT_OK
+        } else {
+            EXIT_HARNESS
+        };
     }
     let mut tot: BTreeMap<String, u64> = BTreeMap::new();
     let mut faults = BTreeMap::new();
@@ -1115,8 +1419,16 @@ pub fn main(cli: &Cli) -> i32 {
     let mut max_reads = 0u64;
     let mut max_work = 0u64;
     for s in &sup.stats {
-        for key in ["runs", "invocations", "diagnostics", "labels_checked", "runs_with_fault_fired", "reads"] {
-            *tot.entry(key.to_string()).or_insert(0) += s.get(key).and_then(|x| x.as_u64()).unwrap_or(0);
+        for key in [
+            "runs",
+            "invocations",
+            "diagnostics",
+            "labels_checked",
+            "runs_with_fault_fired",
+            "reads",
+        ] {
+            *tot.entry(key.to_string()).or_insert(0) +=
+                s.get(key).and_then(|x| x.as_u64()).unwrap_or(0);
         }
         max_passes = max_passes.max(s.get("max_passes").and_then(|x| x.as_u64()).unwrap_or(0));
         max_work = max_work.max(s.get("max_work").and_then(|x| x.as_u64()).unwrap_or(0));
@@ -1127,7 +1439,12 @@ pub fn main(cli: &Cli) -> i32 {
         add_u64(&mut pass_hist, s.get("pass_histogram"));
     }
     let traces: BTreeSet<u64> = sup.runs.iter().map(|r| r.trace).collect();
-    let nontrivial: BTreeSet<u64> = sup.runs.iter().filter(|r| r.nontrivial).map(|r| r.trace).collect();
+    let nontrivial: BTreeSet<u64> = sup
+        .runs
+        .iter()
+        .filter(|r| r.nontrivial)
+        .map(|r| r.trace)
+        .collect();
     let mut sig_counts: BTreeMap<String, u64> = BTreeMap::new();
     let mut first: BTreeMap<String, (u64, Found)> = BTreeMap::new();
     for r in &sup.runs {
@@ -1141,7 +1458,10 @@ pub fn main(cli: &Cli) -> i32 {
         let f = Found {
             class: "process_death".into(),
             sig: format!("process_death:{}", how),
-            message: format!("the process died or deadlocked ({}) in pipeline {}", how, c.pipeline),
+            message: format!(
+                "the process died or deadlocked ({}) in pipeline {}",
+                how, c.pipeline
+            ),
         };
         *sig_counts.entry(f.sig.clone()).or_insert(0) += 1;
         first.entry(f.sig.clone()).or_insert((*k, f));
@@ -1159,7 +1479,11 @@ pub fn main(cli: &Cli) -> i32 {
                 }
                 let (sig, (k, f)) = &todo[i];
                 let c = gen_case(seed, *k);
-                let (mc, mf) = if known.lookup(PROP, sig).is_some() { (c.clone(), f.clone()) } else { minimise(cli, &c, f) };
+                let (mc, mf) = if known.lookup(PROP, sig).is_some() {
+                    (c.clone(), f.clone())
+                } else {
+                    minimise(cli, &c, f)
+                };
                 let mut replay = mc.to_json();
                 if let Value::Object(m) = &mut replay {
                     m.insert("seed".into(), json!(format!("{:#x}", seed)));
@@ -1169,7 +1493,14 @@ pub fn main(cli: &Cli) -> i32 {
                     property: PROP,
                     class: mf.class.clone(),
                     sig: mf.sig.clone(),
-                    message: format!("C06 run {} (pipeline {}, {} files, {} faults): {}", k, c.pipeline, c.project.files.len(), c.faults.len(), mf.message),
+                    message: format!(
+                        "C06 run {} (pipeline {}, {} files, {} faults): {}",
+                        k,
+                        c.pipeline,
+                        c.project.files.len(),
+                        c.faults.len(),
+                        mf.message
+                    ),
                     run_index: *k,
                     replay,
                 });
@@ -1178,7 +1509,13 @@ pub fn main(cli: &Cli) -> i32 {
     });
     let violations = out.into_inner().unwrap();
     let mut samples = vec![];
-    for r in sup.runs.iter().filter(|r| r.nontrivial).take(400).step_by(130) {
+    for r in sup
+        .runs
+        .iter()
+        .filter(|r| r.nontrivial)
+        .take(400)
+        .step_by(130)
+    {
         let c = gen_case(seed, r.k);
         samples.push(json!({"run": r.k, "case": c.to_json()}));
     }
@@ -1197,7 +1534,10 @@ pub fn main(cli: &Cli) -> i32 {
     }
     ev.set("max_passes_of_any_run", json!(max_passes));
     ev.set("max_tokens_emitted_in_one_pass", json!(max_work));
-    ev.set("token_emission_budget_per_pass", json!(passwatch::WORK_BUDGET));
+    ev.set(
+        "token_emission_budget_per_pass",
+        json!(passwatch::WORK_BUDGET),
+    );
     ev.set("max_file_reads_of_any_run", json!(max_reads));
     ev.set("file_read_budget", json!(READ_BUDGET));
     ev.set("pass_count_histogram", json!(pass_hist));
